@@ -8,7 +8,9 @@ import uuid
 from hypothesis import strategies as st
 
 from hippolyzer.lib.base import llsd
-from hippolyzer.lib.base.datatypes import UUID, Vector2, Vector3, Vector4, Quaternion, TupleCoord
+from hippolyzer.lib.base.datatypes import UUID, Vector2, Vector3, Vector4, Quaternion, TupleCoord, JankStringyBytes, RawBytes
+from hippolyzer.lib.base.message.udpdeserializer import UDPMessageDeserializer
+from hippolyzer.lib.base.message.udpserializer import UDPMessageSerializer
 from hippolyzer.lib.base.message.llsd_msg_serializer import LLSDMessageSerializer
 
 from vlib import gen_template as gt
@@ -41,6 +43,8 @@ MANIFEST = {
 }
 
 LSER = LLSDMessageSerializer()
+_UDP_SER = UDPMessageSerializer()
+_UDP_DESER = UDPMessageDeserializer()
 
 
 # ---- part A ---------------------------------------------------------------------------------------------
@@ -121,7 +125,56 @@ def msg_laws(case):
         if form == "dict" and not (m2 == m):
             if not out:
                 out.append(("A:dict:message-eq", "%s: Message.__eq__ says the round-tripped message differs" % case["name"]))
+        if form == "dict" and not out:
+            # the LLSD form is a value: converting the same form a second time gives the original again
+            try:
+                m3 = LSER.deserialize(ser)
+                for loc, why in compare_msg(case, m3)[:2]:
+                    out.append(("A:dict:second-conversion:value", "%s %s: %s (second deserialize of the same form)" % (case["name"], loc, why)))
+            except Exception as e:
+                out.append(("A:dict:second-conversion:raises", "%s: deserializing the same LLSD form a second time raised %r" % (case["name"], e)))
+    out.extend(wire_decoded_laws(case, m))
     return out
+
+
+def wire_decoded_laws(case, m):
+    """the same message as the proxy holds it - decoded from its datagram, so that byte fields are the library's own bytes flavours"""
+    out = []
+    try:
+        mw = _UDP_DESER.deserialize(bytes(_UDP_SER.serialize(m)))
+        mw.ensure_parsed()
+    except Exception:
+        return out      # not a statement about LLSD (C01's business)
+    tmpl = gt.TEMPLATES[case["name"]]
+    for form in ("dict", "xml"):
+        try:
+            m2 = LSER.deserialize(LSER.serialize(mw, as_dict=(form == "dict")))
+        except Exception as e:
+            out.append(("A:%s:wire-decoded:raises:%s" % (form, type(e).__name__), "%s decoded from the wire: LLSD %s round trip raised %r" % (case["name"], form, e)))
+            continue
+        for bname, insts in case["blocks"]:
+            tb = tmpl.get_block(bname)
+            got = m2.blocks.get(bname, [])
+            src = mw.blocks.get(bname, [])
+            if len(got) != len(src):
+                out.append(("A:%s:wire-decoded:structure" % form, "%s.%s: %d blocks became %d" % (case["name"], bname, len(src), len(got))))
+                continue
+            for i, blk in enumerate(src):
+                for v in tb.variables:
+                    a, b = blk.vars.get(v.name), got[i].vars.get(v.name)
+                    if isinstance(a, (bytes, bytearray)):
+                        ok = isinstance(b, bytes) and bytes(a) == bytes(b)
+                    elif isinstance(a, str):
+                        if form == "xml" and any(ord(c) < 0x20 and c not in "\t\n" for c in a):
+                            continue    # text XML cannot carry (the property's domain is XML-legal text)
+                        ok = isinstance(b, str) and a == b
+                    else:
+                        continue        # every other kind is compared by msg_laws on the built message
+                    if not ok:
+                        out.append(("A:%s:wire-decoded:value:%s" % (form, "bytes" if isinstance(a, (bytes, bytearray)) else "text"),
+                                    "%s.%s.%s decoded from the wire as %r comes back from LLSD %s as %r" % (case["name"], bname, v.name, a, form, b)))
+                        break
+    return out[:4]
 
 
 def inject_law(case):
@@ -173,6 +226,9 @@ def leaf(binary_only_dates=False):
         st.floats(allow_nan=False, allow_infinity=False), st.sampled_from([0.0, -0.0, 1.5]),
         TEXT, st.sampled_from(["\\n", "a\\\nb", "\\", "'", "it's", "line1\nline2\n"]),
         st.binary(max_size=10).map(lambda b: ("binary", b)),
+        # the flavours of bytes the library itself hands out (message fields of unknown nature, raw blobs): binary values like any other
+        st.tuples(st.sampled_from(["jank", "rawbytes"]),
+                  st.one_of(st.binary(max_size=10), st.sampled_from([b"text\x00", b"caf\xc3\xa9", b"\xff\xfe", b"a\x00b\x00", b"\x01\x02\n"]))),
         st.text(st.characters(min_codepoint=0x21, max_codepoint=0x7E, blacklist_characters="'\"\\<>&"), max_size=12).map(lambda s: ("uri", "http://x/" + s)),
         st.sampled_from([("uri", "http://ex.am/é中")]),
         st.integers(0, 2 ** 128 - 1).map(lambda i: ("uuid", i)), st.integers(0, 2 ** 128 - 1).map(lambda i: ("stduuid", i)),
@@ -205,6 +261,12 @@ def build_tree(t):
         k = t[0]
         if k == "binary":
             return llsd.binary(t[1])
+        if k == "jank":
+            return JankStringyBytes(t[1])
+        if k == "rawbytes":
+            return RawBytes(t[1])
+        if k == "bytearray":
+            return bytearray(t[1])
         if k == "uri":
             return llsd.uri(t[1])
         if k == "uuid":
@@ -360,6 +422,9 @@ def leaf_classes(desc, acc):
             for x in desc[1]:
                 leaf_classes(x, acc)
             acc.add("container")
+        elif k in ("jank", "rawbytes", "bytearray"):
+            acc.add("leaf:binary")
+            acc.add("leaf:library-bytes")
         else:
             acc.add("leaf:" + k)
     elif isinstance(desc, list):
